@@ -452,3 +452,68 @@ def patterns (kind : Nat) (n : Nat) (r : Rng) (frc : Bool) : List Position :=
   go (n * 60) n [] r
 
 end Rawr.GenPos
+
+namespace Rawr.GenPos
+open Rawr Spec
+
+/-- candidates for under-promotion mates: a pawn on the seventh, the enemy king a knight's move (or close)
+from the promotion square, a few own pieces around. -/
+def underPromoCandidate (r : Rng) : APos × Rng :=
+  let (wtm, r) := r.below 2
+  let w := wtm == 0
+  let r7 : Int := if w then 6 else 1
+  let r8 : Int := if w then 7 else 0
+  let dir : Int := if w then 1 else -1
+  let (pf0, r) := r.below 8
+  let pf : Int := pf0
+  let b : Placement := place [] (sq pf r7) ⟨w, .pawn⟩
+  let (j, r) := r.below 6
+  let offs : List (Int × Int) := [(1, -2), (-1, -2), (2, -1), (-2, -1), (1, -1), (-1, -1)]
+  let (df, dr) := offs.getD j (1, -2)
+  let kf := pf + df
+  let kr := r8 + dir * dr
+  let (af, r) := r.below 8
+  let (ar, r) := r.below 8
+  let b := if onBoard kf kr then place b (sq kf kr) ⟨!w, .king⟩ else place b (sq af ar) ⟨!w, .king⟩
+  let b := if b.any (fun x => x.2 == ⟨!w, .king⟩) then b else place b (sq ((af + 3) % 8) ((ar + 3) % 8)) ⟨!w, .king⟩
+  let (of, r) := r.below 8
+  let (or_, r) := r.below 8
+  let b := place b (sq of or_) ⟨w, .king⟩
+  let b := if b.any (fun x => x.2 == ⟨w, .king⟩) then b else place b (sq ((of + 5) % 8) ((or_ + 2) % 8)) ⟨w, .king⟩
+  -- own pieces near the enemy king, a few enemy blockers
+  let rec extra (n : Nat) (b : Placement) (r : Rng) : Placement × Rng :=
+    match n with
+    | 0 => (b, r)
+    | n + 1 =>
+      let (dx, r) := r.below 5
+      let (dy, r) := r.below 5
+      let (k, r) := randKind r [.bishop, .knight, .rook, .queen, .pawn, .bishop]
+      let (own, r) := r.below 4
+      let f := kf + (dx : Int) - 2
+      let k2 := kr + (dy : Int) - 2
+      extra n (if onBoard f k2 then place b (sq f k2) ⟨if own == 0 then !w else w, k⟩ else b) r
+  let (ne, r) := r.below 5
+  let (b, r) := extra (ne + 2) b r
+  let a : APos := { board := boardOf b, whiteToMove := w, wK := none, wQ := none, bK := none, bQ := none,
+                    ep := none, half := 0, full := 1 }
+  (freeze a, r)
+
+/-- positions with a mate in one delivered by an under-promotion. -/
+def underPromoMates (n : Nat) (r : Rng) : List Position :=
+  let rec go (fuel : Nat) (acc : List Position) (r : Rng) : List Position :=
+    match fuel with
+    | 0 => acc
+    | fuel + 1 =>
+      let (a, r) := underPromoCandidate r
+      if Spec.Valid a then
+        let p := rel a false
+        let mates := (legalMoves p).any fun m =>
+          m.promo != 6 && m.promo != 4 &&
+          (match p.makemove m true with
+           | some q => (legalMoves q).isEmpty && q.inCheck
+           | none => false)
+        go fuel (if mates then p :: acc else acc) r
+      else go fuel acc r
+  go n [] r
+
+end Rawr.GenPos
